@@ -108,7 +108,7 @@ def gen_fiber(rng, uid, max_km, raman=False, allow_lumped=True):
     if rng.random() < 0.15:
         f['att_in'] = rng.choice([0, 1, 2.5, 0.5])
     if raman:
-        f['len'] = round(rng.uniform(60, 110), 3)
+        f['len'] = round(rng.uniform(40, min(110, max_km - 1)), 3)
         if f['con_out'] is None:
             f['con_out'] = 0.5        # RamanFiber cannot be built without con_out
         if f['con_in'] is None and rng.random() < 0.5:
@@ -245,6 +245,13 @@ def gen_case(rng, kind='valid'):
         else:
             ln['els'] = [gen_amp(rng, 'amp x', span['power_mode'], before_raman=True), f,
                          {'k': 'U', 'uid': 'fused x', 'loss': 1}, gen_fiber(rng, 'fiber x', span['max_length'], allow_lumped=False)]
+    if kind == 'raman_long':
+        ln = rng.choice(lines)
+        f = gen_fiber(rng, 'raman x', span['max_length'], raman=True)
+        f['len'] = round(span['max_length'] * rng.choice([1, 1.3, 2.2]), 3)
+        ln['els'] = [gen_amp(rng, 'amp x', span['power_mode'], before_raman=True), f]
+    if kind == 'roadm_zero_target':
+        roadms[rng.choice(sorted(roadms))]['target_pch_out_db'] = 0
     if rng.random() < 0.08:
         # a transceiver reached through fibre (no ROADM in between)
         x = rng.choice(names)
@@ -533,29 +540,28 @@ def diff_line(model, impl):
 
 
 def near_threshold(case, before):
-    """tie rule: a fibre whose length / split length lies within 1e-9 (relative) of a comparison threshold of
-    calculate_new_length is not judged (float vs exact arithmetic)"""
+    """tie rule: a case is not judged when an exact value used in a comparison of calculate_new_length lies within
+    1e-9 (relative) of its threshold without being equal to it (float vs exact arithmetic may then disagree)"""
     c = cfg_of(case['span'])
     mn = max(c['padlen'], 50000)
     mx = c['max']
     tg = max(mn, min(mx, 90000))
+
+    def tie(x, th):
+        return x != th and abs(x - th) <= Fraction(1, 10 ** 9) * max(1, abs(th))
     for ln in before:
         for e in ln['els']:
             if e['k'] in 'FR':
-                L = e['len']
-                vals = [L]
+                L = Fraction(e['len'])
+                if tie(L, mx):
+                    return True
                 if L >= mx and tg > 0 and L // tg >= 1:
-                    n2 = int(L // tg)
-                    vals += [L / n2, L / (n2 + 1)]
+                    n2 = L // tg
                     l1, l2 = L / (n2 + 1), L / n2
-                    if abs((l2 - tg) - (tg - l1)) <= 1e-9 * tg:
+                    if any(tie(v, th) for v in (l1, l2) for th in (mn, mx)):
                         return True
-                    if abs(L / tg - round(L / tg)) < 1e-9:
+                    if tie(l2 - tg, tg - l1) or tie(L / tg, round(L / tg)):
                         return True
-                for v in vals:
-                    for th in (mn, mx):
-                        if abs(v - th) <= 1e-9 * max(1, th) and v != th:
-                            return True
     return False
 
 
@@ -576,12 +582,21 @@ def oracle_python(case, rec):
     """graph-level clauses: chains, unique names, reachability, split totals (length, loss, lumped)"""
     fails = []
     for p in rec['after_problems']:
-        fails.append(('not_chains', p, None))
+        fails.append(('not_chains', p, {}))
     if rec['reach_before'] != rec['reach_after']:
         d = sorted(rec['reach_before'] ^ rec['reach_after'])[:3]
-        fails.append(('reachability_changed', f'pairs {d}', None))
+        fails.append(('reachability_changed', f'pairs {d}', {}))
     b_by_key = {(ln['src'], ln['first']): ln for ln in rec['before']}
     max_m = int(case['span']['max_length'] * 1000.0)
+    cfg = cfg_of(case['span'])
+    min_above_max = max(cfg['padlen'], 50000) > cfg['max']
+
+    def det(uid, b, parts):
+        d = {'uid': uid, 'min_above_max': min_above_max}
+        if b is not None and parts:
+            d.update(n_parts=len(parts), lumped_before=sum(l for _, l in b['lumped']),
+                     lumped_after=sum(l for p in parts for _, l in p['lumped']), was_raman=b['k'] == 'R')
+        return d
     before_fibres = {e['uid']: e for ln in rec['before'] for e in ln['els'] if e['k'] in 'FR'}
     after_fibres = {}
     for ln in rec['after']:
@@ -598,88 +613,110 @@ def oracle_python(case, rec):
     for uid, b in before_fibres.items():
         parts = groups.get(uid)
         if not parts:
-            fails.append(('fibre_lost', f'{uid} has no counterpart after design', uid))
+            fails.append(('fibre_lost', f'{uid} has no counterpart after design', det(uid, b, parts)))
             continue
         tl = sum(p['len'] for p in parts)
         if not close(tl, b['len']):
-            fails.append(('split_length', f'{uid}: {b["len"]} m became {len(parts)} spans totalling {tl} m', uid))
+            fails.append(('split_length', f'{uid}: {b["len"]} m became {len(parts)} spans totalling {tl} m', det(uid, b, parts)))
         if b['lc'] is not None and not close(sum(p['len'] * p['lc'] for p in parts), b['len'] * b['lc']):
-            fails.append(('split_loss', f'{uid}: length*loss_coef not preserved', uid))
+            fails.append(('split_loss', f'{uid}: length*loss_coef not preserved', det(uid, b, parts)))
         if len({round(p['len'], 6) for p in parts}) != 1:
-            fails.append(('split_unequal', f'{uid}: spans {[p["len"] for p in parts]}', uid))
+            fails.append(('split_unequal', f'{uid}: spans {[p["len"] for p in parts]}', det(uid, b, parts)))
         for p in parts:
             if b['len'] >= max_m and p['len'] > max_m * (1 + 1e-12):
-                fails.append(('span_above_max', f'{p["uid"]}: {p["len"]} m > max_length {max_m} m', uid))
+                fails.append(('span_above_max', f'{p["uid"]}: {p["len"]} m > max_length {max_m} m', det(uid, b, parts)))
         if b['len'] < max_m and len(parts) != 1:
-            fails.append(('split_below_max', f'{uid}: {b["len"]} m < max_length was split in {len(parts)}', uid))
+            fails.append(('split_below_max', f'{uid}: {b["len"]} m < max_length was split in {len(parts)}', det(uid, b, parts)))
         lb = sum(l for _, l in b['lumped'])
         la = sum(l for p in parts for _, l in p['lumped'])
         if not close(lb, la):
-            fails.append(('split_lumped', f'{uid}: lumped losses {lb} dB before, {la} dB after the split into {len(parts)}', uid))
+            fails.append(('split_lumped', f'{uid}: lumped losses {lb} dB before, {la} dB after the split into {len(parts)}', det(uid, b, parts)))
         if len(parts) > 1 and b['k'] == 'R':
-            fails.append(('split_raman_lost', f'{uid}: Raman fibre replaced by {len(parts)} plain Fiber spans', uid))
+            fails.append(('split_raman_lost', f'{uid}: Raman fibre replaced by {len(parts)} plain Fiber spans', det(uid, b, parts)))
     return fails
 
 
-def validator_term(rec, ln, before_names, pad):
+def validator_term(rec, ln, before_names):
+    """one observed designed line for Run.C08.check_line (presence flags and losses only: cheap literals)"""
     els = []
+    B = {True: 'true', False: 'false'}
     for e in ln['els']:
         if e['k'] in 'FR':
-            els.append(el_term(e))
+            loss = e['loss'] if e['loss'] is not None else 0.0
+            els.append(f'fbv {strlit(e["uid"])} {B[e["k"] == "R"]} {qlit(loss)} {B[e["con_in"] is not None]} {B[e["con_out"] is not None]}')
         elif e['k'] == 'U':
             els.append(el_term(e))
         else:
-            auto = 'false' if e['uid'] in before_names else 'true'
+            auto = B[e['uid'] not in before_names]
             if e.get('multi'):
+                # a multiband amplifier is judged per band here and enters the validator as one amplifier
                 ok = all(a['variety'] in rec['library'] and a['gain'] is not None and a['voa'] is not None
                          and (a['dp'] is not None or not rec['power_mode']) for a in e['amps']) and bool(e['amps'])
-                # a multiband amplifier is judged per band in Python and enters the validator as one amplifier
-                g = 'Some (0#1)' if ok else 'None'
-                els.append(f'amv {strlit(e["uid"])} true {auto} {strlit(e["variety"] or "")} ({g}) ({g}) ({g})')
+                els.append(f'amb {strlit(e["uid"])} true {auto} {strlit(e["variety"] or "")} {B[ok]} {B[ok]} {B[ok]}')
             else:
-                els.append(f'amv {strlit(e["uid"])} false {auto} {strlit(e["variety"] or "")} {oq(e["gain"])} {oq(e["dp"])} {oq(e["voa"])}')
-    lib = listlit([strlit(x) + "%string" for x in rec["library"]])
-    return (f'check_line {lib} {"true" if rec["power_mode"] else "false"} {qlit(pad)} '
-            f'{"Roadm" if ln["src_kind"] == "R" else "Trx"} {"Roadm" if ln["dst_kind"] == "R" else "Trx"} {listlit(els)}')
+                els.append(f'amb {strlit(e["uid"])} false {auto} {strlit(e["variety"] or "")} {B[e["gain"] is not None]} '
+                           f'{B[e["dp"] is not None]} {B[e["voa"] is not None]}')
+    return (f'({"Roadm" if ln["src_kind"] == "R" else "Trx"}, {"Roadm" if ln["dst_kind"] == "R" else "Trx"}, {listlit(els)})')
+
+
+def validator_case_term(rec, before_names, pad):
+    lines = listlit([validator_term(rec, ln, before_names) for ln in rec['after']])
+    return f'check_net LIB {"true" if rec["power_mode"] else "false"} {qlit(pad - 1e-9)} {lines}'
 
 
 # ------------------------------------------------------------------ known findings (narrow predicates)
-def m_raman_target_power(v):
+def m_f9(v):
+    """split_fiber copies lumped_losses into every sub-span, or raises when a position exceeds the sub-span"""
     d = v.get('detail', {})
-    return v['key'] == 'design_raises' and d.get('exc_type') == 'TypeError' and d.get('auto_amp_before_raman') is True
+    if v['key'] == 'split_lumped':
+        return d.get('n_parts', 0) > 1 and d.get('lumped_before', 0) > 0 and \
+            close(d.get('lumped_after'), d['n_parts'] * d['lumped_before'])
+    return v['key'] == 'design_raises' and d.get('exc_type') == 'NetworkTopologyError' and \
+        d.get('lumped_beyond_subspan') is True and 'Lumped loss positions' in d.get('exc', '')
 
 
-def m_zero_division(v):
+def m_f12(v):
     d = v.get('detail', {})
+    return v['key'] == 'design_raises' and d.get('exc_type') == 'ConfigurationError' and d.get('roadm_target_zero') is True \
+        and 'needs an equalization target' in d.get('exc', '')
+
+
+def m_f15(v):
+    """span_loss / estimate_raman_gain called without input power for a Raman span"""
+    d = v.get('detail', {})
+    return v['key'] == 'design_raises' and d.get('exc_type') == 'TypeError' and d.get('raman_gain_without_power') is True \
+        and 'NoneType' in d.get('exc', '')
+
+
+def m_f16(v):
+    """max(padding/0.2 km, 50 km) > max_length: ZeroDivisionError or spans above max_length"""
+    d = v.get('detail', {})
+    if v['key'] == 'span_above_max':
+        return d.get('min_above_max') is True
     return v['key'] == 'design_raises' and d.get('exc_type') == 'ZeroDivisionError' and d.get('min_above_max') is True \
         and d.get('fibre_at_or_above_max') is True
 
 
-def m_split_lumped(v):
-    return v['key'] == 'split_lumped' and v.get('detail', {}).get('n_parts', 0) > 1
-
-
-def m_split_lumped_raises(v):
-    d = v.get('detail', {})
-    return v['key'] == 'design_raises' and d.get('exc_type') == 'NetworkTopologyError' and d.get('lumped_beyond_subspan') is True
-
-
-def m_pad_fused(v):
+def m_f17(v):
     d = v.get('detail', {})
     return v['key'] == 'padding' and d.get('fused_at_span_end_or_start') is True
 
 
-def m_split_raman(v):
-    return v['key'] == 'split_raman_lost'
+def m_f18(v):
+    d = v.get('detail', {})
+    return v['key'] == 'split_raman_lost' and d.get('was_raman') is True and d.get('n_parts', 0) > 1
 
+
+# exception types the chain model can produce (anything else, e.g. ROADM equalisation errors, is outside the model)
+MODEL_EXCEPTIONS = ('TypeError', 'ZeroDivisionError', 'NetworkTopologyError')
 
 MATCHERS = {
-    'F9-split-lumped-duplicated': m_split_lumped,
-    'F9-split-lumped-raises': m_split_lumped_raises,
-    'F15-raman-target-power-typeerror': m_raman_target_power,
-    'F16-split-zero-division': m_zero_division,
-    'F17-padding-skipped-fused': m_pad_fused,
-    'F18-split-raman-becomes-fiber': m_split_raman,
+    'F9-split-lumped': m_f9,
+    'F12-roadm-target-zero': m_f12,
+    'F15-raman-span-loss-without-power': m_f15,
+    'F16-min-length-above-max-length': m_f16,
+    'F17-padding-skipped-at-fused': m_f17,
+    'F18-raman-split-to-fiber': m_f18,
 }
 
 
@@ -689,6 +726,7 @@ def classify_exception(case, rec):
     c = cfg_of(case['span'])
     mn = max(c['padlen'], 50000)
     d['min_above_max'] = mn > c['max']
+    d['roadm_target_zero'] = any(r.get('target_pch_out_db') == 0 for r in case['roadms'].values())
     fibres = [e for ln in rec['before'] for e in ln['els'] if e['k'] in 'FR']
     d['fibre_at_or_above_max'] = any(e['len'] >= c['max'] for e in fibres)
     # amplifier without operator delta_p (user or to-be-inserted) directly before a Raman run
@@ -715,7 +753,7 @@ def classify_exception(case, rec):
                 k += 1
             if k < len(els) and k > i + 1 and els[k]['k'] == 'F':
                 hit = True
-    d['auto_amp_before_raman'] = hit
+    d['raman_gain_without_power'] = hit
     mxl = c['max']
     tg = max(mn, min(mxl, 90000))
     lb = False
@@ -754,8 +792,10 @@ def run(ctx):
         cases += [gen_case(rng, 'raman_auto') for _ in range(ctx.scale(4, 40))]
         cases += [gen_case(rng, 'risky_span') for _ in range(ctx.scale(6, 60))]
         cases += [gen_case(rng, 'lumped_split') for _ in range(ctx.scale(6, 60))]
+        cases += [gen_case(rng, 'raman_long') for _ in range(ctx.scale(2, 20))]
+        cases += [gen_case(rng, 'roadm_zero_target') for _ in range(ctx.scale(2, 20))]
     terms, meta = [], []
-    vterms, vmeta = [], []
+    vterms, vmeta, libs = [], [], set()
     import time
     t0 = time.time()
     for case in cases:
@@ -764,7 +804,9 @@ def run(ctx):
         ctx.count('kind_' + case.get('kind', 'valid'))
         if 'load_exc' in rec:
             ctx.count('load_exception')
-            ctx.violation('load_raises', rec['load_exc'], sc)
+            ctx.violation('load_raises', rec['load_exc'], sc,
+                          detail={'exc_type': rec['load_exc'].split(':')[0], 'exc': rec['load_exc'][:300],
+                                  'roadm_target_zero': any(r.get('target_pch_out_db') == 0 for r in case['roadms'].values())})
             continue
         for p in rec['before_problems']:
             ctx.count('generator_not_chain')
@@ -795,16 +837,12 @@ def run(ctx):
             ctx.case(sc, False)
             ctx.violation('design_raises', f'designed_network raised {rec["exc"][:200]}', sc,
                           detail=classify_exception(case, rec))
-            if not tie:
+            if not tie and rec['exc_type'] in MODEL_EXCEPTIONS:
                 terms.append(f'run_case ({cfg_term(cfg)}) {listlit([line_term(ln, dst_first(ln)) for ln in rec["before"]])}')
                 meta.append((sc, rec, None))
             continue
         # --- oracle, Python part
-        for key, desc, uid in oracle_python(case, rec):
-            det = {}
-            if key == 'split_lumped':
-                det['n_parts'] = sum(1 for ln in rec['after'] for e in ln['els']
-                                     if e['k'] in 'FR' and (split_base(e['uid']) or ('',))[0] == uid)
+        for key, desc, det in oracle_python(case, rec):
             ctx.violation(key, desc, sc, detail=det)
         n_ins = sum(1 for ln in rec['after'] for e in ln['els'] if e['k'] == 'A' and e['uid'] not in before_names)
         n_split = sum(1 for ln in rec['after'] for e in ln['els'] if e['k'] in 'FR' and e['uid'] not in before_names)
@@ -815,9 +853,9 @@ def run(ctx):
         ctx.count('padded_fibres', n_pad)
         ctx.case(sc, n_ins > 0 and (n_split > 0 or n_pad > 0 or any(e['k'] == 'U' for ln in rec['before'] for e in ln['els'])))
         # --- oracle, Coq part (proved validator on the implementation's designed lines)
-        for ln in rec['after']:
-            vterms.append(validator_term(rec, ln, before_names, case['span']['padding']))
-            vmeta.append((sc, ln))
+        vterms.append(validator_case_term(rec, before_names, case['span']['padding']))
+        vmeta.append((sc, rec['after']))
+        libs.add(tuple(rec['library']))
         # --- correspondence
         if not tie:
             terms.append(f'run_case ({cfg_term(cfg)}) {listlit([line_term(ln, dst_first(ln)) for ln in rec["before"]])}')
@@ -857,19 +895,21 @@ def run(ctx):
                                impl=[e['uid'] for e in cand[0]['els']], model=[x[1] for x in m])
     ctx.extra['t_model'] = round(time.time() - t0, 1)
     t0 = time.time()
-    vout = common.coq_eval(PROP, 'Prelude Model.Chain Run.C08', vterms, per_file=60, tag='valid', prelude=QPRE)
-    for (sc, ln), verdict in zip(vmeta, vout):
-        if verdict != 'ok':
+    assert len(libs) <= 1
+    lib_def = 'Definition LIB : list string := ' + listlit([strlit(x) + '%string' for x in (sorted(libs)[0] if libs else [])]) + '.'
+    vout = common.coq_eval(PROP, 'Prelude Model.Chain Run.C08', vterms, per_file=20, tag='valid', prelude=QPRE + '\n' + lib_def)
+    for (sc, after), verdicts in zip(vmeta, vout):
+        for ln, verdict in zip(after, verdicts.split(';')):
+            if verdict == 'ok':
+                continue
             for item in verdict.split(','):
                 key, _, where = item.partition('@')
                 det = {}
                 if key == 'padding':
-                    els = ln['els']
-                    # is the offending span one that starts or ends with a Fused element?
                     idx = int(where) if where.isdigit() else -1
-                    det['fused_at_span_end_or_start'] = span_has_fused_edge(els, idx)
+                    det['fused_at_span_end_or_start'] = span_has_fused_edge(ln['els'], idx)
                 ctx.violation(key, f'line {ln["src"]}->{ln["dst"]}: validator clause {key} fails at element {where} '
-                              f'({[e["uid"] for e in ln["els"]]})', sc, detail=det)
+                              f'({[e["uid"] for e in ln["els"]][:12]})', sc, detail=det)
     ctx.extra['t_validator'] = round(time.time() - t0, 1)
     ctx.assumptions += [
         'lines are compared one by one: the model is per line (source, chain, destination, which end is designed first); '
